@@ -268,9 +268,12 @@ type PemFileIn struct {
 	// (0 = first line, as gopki writes it; >= number of blocks = last line)
 	HashPos int  `json:"hashPos"`
 	Note    bool `json:"note"`
+	// Raw: when set (hex), the text is exactly this — hand-written and mutated PEM texts for the model of pem.Decode
+	Raw string `json:"raw,omitempty"`
 }
 
 var pemMaterial = map[string][3][]byte{}
+var gopkiFiles = map[string][]byte{}
 
 func materialFor(alg string) [3][]byte {
 	if m, ok := pemMaterial[alg]; ok {
@@ -285,6 +288,7 @@ func materialFor(alg string) [3][]byte {
 	m := buildMapFs([]FileIn{{Path: "e.yaml", Kind: "cert", Json: j, Text: string(j), Age: 10}}, nowMinusHour())
 	runSign(m, defaultStrat, nil)
 	o := observePem(m["e.pem"].Data)
+	gopkiFiles[alg] = append([]byte{}, m["e.pem"].Data...)
 	var csr []byte
 	if k, err := cert.ParsePKCS8PrivateKey(o.KeyDer); err == nil {
 		if _, isEc := k.(*ecdsa.PrivateKey); !isEc || alg[:2] == "P-" {
@@ -341,6 +345,9 @@ func execPemFile(raw json.RawMessage) any {
 	if in.Cut >= 0 && in.Cut < len(content) {
 		content = content[:in.Cut]
 	}
+	if in.Raw != "" {
+		content = must(hex.DecodeString(in.Raw))
+	}
 	pf, err := cert.ReadPem(content)
 	art := filesystem.VerifImportPem(content)
 	sameCert := pf.Certificate != nil && bytes.Equal(must(asn1.Marshal(*pf.Certificate)), mat[0])
@@ -351,7 +358,21 @@ func execPemFile(raw json.RawMessage) any {
 			sameKey = bytes.Equal(kb, mat[1])
 		}
 	}
-	return J{"len": len(bb.Bytes()), "ends": ends, "readErr": err != nil,
+	// the standard library's reading of the text, block by block, for the PEM model (Gopki.Base.Pem)
+	var goBlocks []J
+	restP := content
+	for {
+		var b *pem.Block
+		b, restP = pem.Decode(restP)
+		if b == nil {
+			break
+		}
+		goBlocks = append(goBlocks, J{"type": b.Type, "bytes": hex.EncodeToString(b.Bytes), "headers": len(b.Headers), "reenc": hex.EncodeToString(pem.EncodeToMemory(&pem.Block{Type: b.Type, Bytes: b.Bytes}))})
+	}
+	// a file gopki itself wrote for this key algorithm, with the DER values it holds
+	gf := gopkiFiles[in.KeyAlg]
+	return J{"len": len(bb.Bytes()), "ends": ends, "readErr": err != nil, "blocks": goBlocks, "trailing": len(restP) != 0,
+		"gopkiFile": hex.EncodeToString(gf), "matCert": hex.EncodeToString(mat[0]), "matKey": hex.EncodeToString(mat[1]), "textHex": hex.EncodeToString(content),
 		"cert": pf.Certificate != nil, "key": pf.PrivateKey != nil, "csr": pf.Request != nil,
 		"sameCert": sameCert, "sameKey": sameKey, "sameCsr": sameCsr,
 		"artCert": art.Certificate != nil, "artKey": art.PrivateKey != nil, "artCsr": art.Request != nil,
@@ -374,6 +395,35 @@ func genPemFile(yield func(any)) {
 				for _, note := range []bool{false, true} {
 					yield(PemFileIn{Hash: true, Cert: mask&2 != 0, Key: mask&4 != 0, Csr: mask&8 != 0, Order: choose([]string{"gopki", "reversed"}), Cut: -1, KeyAlg: alg, HashPos: pos, Note: note})
 				}
+			}
+		}
+	}
+	// hand-written and mutated texts (the model of pem.Decode must agree with the standard library on all of them)
+	{
+		full := PemFileIn{Hash: true, Cert: true, Key: true, Csr: true, Order: "gopki", Cut: -1, KeyAlg: "P-256"}
+		r := execPemFile(must(json.Marshal(full))).(J)
+		text := r["text"].(string)
+		odd := []string{
+			"-----BEGIN X-----\n-----END X-----\n", "-----BEGIN X-----\n-----END X-----", "-----BEGIN X-----\nAAAA\n-----END X-----\ntrailing",
+			"-----BEGIN X-----\r\nAAAA\r\n-----END X-----\r\n", "-----BEGIN X-----\nAA AA\n\tAAAA\n-----END X-----\n", "-----BEGIN X-----  \nAAAA\n-----END X-----  \n",
+			"-----BEGIN X-----\nProc-Type: 4,ENCRYPTED\nDEK-Info: a\n\nAAAA\n-----END X-----\n", "-----BEGIN X-----\nk: v\n-----END X-----\n", "-----BEGIN X-----\nk: v\n\n-----END X-----\n",
+			"-----BEGIN X-----\nAAAA\n-----END Y-----\n", "-----BEGIN X-----\nAAAA\n-----END X----\n", "-----BEGIN X-----\nAAAA\n-----END X----- x\n", "-----BEGIN X-----\nAAA\n-----END X-----\n",
+			"-----BEGIN X-----\nAAAA\n-----BEGIN Y-----\nBBBB\n-----END Y-----\n", "-----BEGIN X----\nAAAA\n-----END X-----\n-----BEGIN Z-----\nAAAA\n-----END Z-----\n",
+			"x-----BEGIN X-----\nAAAA\n-----END X-----\n", "x\n-----BEGIN X-----\nAAAA\n-----END X-----\n", "-----BEGIN -----\nAAAA\n-----END -----\n", "-----BEGIN X-----", "-----BEGIN X-----\n", "-----BEGIN X-----\nAAAA",
+			"-----BEGIN X-----\nAAAA\n-----END X-----\n-----END X-----\n", "-----BEGIN X-----\nAAAA-----END X-----\n", "-----BEGIN X-----\n\n\nAAAA\n\n-----END X-----\n\n\n", "-----BEGIN A:B-----\nAAAA\n-----END A:B-----\n",
+			"-----BEGIN X-----\nAQ==\n-----END X-----\n", "-----BEGIN X-----\nAQ=\n-----END X-----\n", "-----BEGIN X-----\nAR==\n-----END X-----\n", "-----BEGIN X-----\nAQ==AAAA\n-----END X-----\n", "\n\n", "", "-----END X-----\n",
+			"-----BEGIN X-----\n:\n-----END X-----\n", "-----BEGIN X-----\nAAAA\n-----END X-----\r", "-----BEGIN X-----\rAAAA\n-----END X-----\n",
+		}
+		for _, o := range odd {
+			f := full
+			f.Raw = hex.EncodeToString([]byte(o))
+			yield(f)
+		}
+		for n := 0; n < pick(300, 6000); n++ {
+			f := full
+			f.Raw = hex.EncodeToString([]byte(mutateText(text)))
+			if f.Raw != "" {
+				yield(f)
 			}
 		}
 	}
